@@ -380,7 +380,10 @@ def constants_check(chk):
     from .rendering import render
     lines = [netgen.leeds_line(1, ["CO"], ["GCO"], rtype=7), netgen.leeds_line(2, ["GCO"], ["CO"], rtype=8),
              netgen.leeds_line(3, ["CH4"], ["GCH4"], rtype=7), netgen.leeds_line(4, ["GCH4"], ["CH4"], rtype=8),
-             netgen.leeds_line(5, ["H2O"], ["GH2O"], rtype=7), netgen.leeds_line(6, ["GH2O"], ["H2O"], rtype=10)]
+             netgen.leeds_line(5, ["H2O"], ["GH2O"], rtype=7), netgen.leeds_line(6, ["GH2O"], ["H2O"], rtype=10),
+             # charged ices have entries of their own in the RATE12 table (OH- 1260 K next to OH 2850 K, CN- 1510 K next to CN 1600 K)
+             netgen.leeds_line(7, ["GOH-"], ["OH-"], rtype=8), netgen.leeds_line(8, ["GCN-"], ["CN-"], rtype=8),
+             netgen.leeds_line(9, ["GOH"], ["OH"], rtype=8)]
     f = chk.scratch / "ice.leeds"
     f.write_text("\n".join(lines) + "\n")
     try:
@@ -394,11 +397,12 @@ def constants_check(chk):
         return
     txt = (path / "src" / "naunet_constants.cpp").read_text()
     got = {m.group(1): float(m.group(2)) for m in re.finditer(r"double eb_(\w+)\s*=\s*([-+0-9.eE]+);", txt)}
-    want = {"GCOI": EB_TABLE["CO"], "GCH4I": 1234.5, "GH2OI": EB_TABLE["H2O"]}
+    want = {"GCOI": EB_TABLE["CO"], "GCH4I": 1234.5, "GH2OI": EB_TABLE["H2O"], "GOHM": EB_TABLE["OH-"], "GCNM": EB_TABLE["CN-"],
+            "GOHI": EB_TABLE["OH"]}
     chk.count(("constants",), nontrivial=True)
     if got != want:
         chk.violation({"kind": "binding-energy-constant"}, f"emitted binding energies {got} differ from the species' own values {want} "
-                      "(user override first, then the RATE12 table)", input={"species": ["GCO", "GCH4 (user value 1234.5)", "GH2O"]})
+                      "(user override first, then the RATE12 table)", input={"species": ["GCO", "GCH4 (user value 1234.5)", "GH2O", "GOH-", "GCN-", "GOH"]})
     rates = (path / "src" / "naunet_rates.cpp").read_text()
     if "2.5e-03" not in rates.replace("0.0025", "2.5e-03") :
         chk.violation({"kind": "yield-not-used"}, "the user photodesorption yield of GH2O (2.5e-3) does not appear in its photodesorption rate")
